@@ -1305,7 +1305,7 @@ impl fmt::Display for Type2<'_> {
       Type2::IntValue { value, .. } => write!(f, "{}", value),
       Type2::UintValue { value, .. } => write!(f, "{}", value),
       Type2::FloatValue { value, .. } => write!(f, "{:?}", value),
-      Type2::TextValue { value, .. } => write!(f, "\"{}\"", value),
+      Type2::TextValue { value, .. } => write!(f, "\"{}\"", crate::token::escape_text(value)),
       Type2::UTF8ByteString { value, .. } => write!(
         f,
         "'{}'",
